@@ -30,6 +30,8 @@ func biasFor(prop, tier string) gBias {
 	}
 	switch prop {
 	case "C01":
+		b.LoopKinds = true
+		b.PLoop = 20
 		b.FanIn = true
 		b.PDedup = 45
 		b.PDeps = 50
@@ -38,6 +40,7 @@ func biasFor(prop, tier string) gBias {
 		b.PCall = 45
 		b.PLoop = 25
 		b.Matrix = true
+		b.LoopKinds = true
 		b.PDeps = 25
 		b.PFail = 5
 		b.DeferCallTpl = true
@@ -54,6 +57,8 @@ func biasFor(prop, tier string) gBias {
 		b.VEnvSub = true
 		b.PLoop = 20
 	case "C07":
+		b.DynVars = true
+		b.PGuard = 6
 		b.PDeps = 55
 		b.PFail = 3
 		b.Concs = []int{1, 1, 2, 3, 0}
@@ -62,6 +67,7 @@ func biasFor(prop, tier string) gBias {
 		b.PGuard = 45
 		b.PFail = 5
 		b.ForceFlags = true
+		b.DynVars = true
 	case "C14":
 		b.PDefer = 35
 		b.PFail = 25
@@ -280,7 +286,7 @@ func (m *gModel) expectedExits(flagX bool) (map[int]bool, bool) {
 				if m.p.Answer == "eof" && in.Guard == "prompt_declined" {
 					set[1] = true
 				}
-			case "precond":
+			case "precond", "dynvar":
 				set[1] = true
 			case "internal":
 				set[202] = true
